@@ -627,11 +627,55 @@ def _exact_float(ctx, rule):
     return _c01.r9_exact_float_discipline(ctx, rule)
 
 
+FRESH_UUID = {'uuid.uuid4', 'uuid.uuid1', 'uuid4', 'uuid1'}
+
+
+def r12_uuid_is_fresh(ctx, rule):
+    """The uuid gate (R1) refuses a stale session only if every training run stamps the ruleset with a new identity:
+    the trainer's 'uuid' option must come from a random/time based uuid constructor, never from a function of the
+    training options (a retrained, different grammar would keep the uuid and the stale .sav would be accepted)."""
+    sites = []
+    for qual, fn in ctx.repo.all_funcs():
+        rel = qual.partition('::')[0]
+        if not rel.startswith('lib_trainer/') or 'future_research' in rel:
+            continue
+        for c in calls_in(fn):
+            if isinstance(c.func, ast.Attribute) and c.func.attr == 'set' and len(c.args) == 3 and const(c.args[1]) == 'uuid':
+                sites.append((qual, fn, c))
+    if not ctx.floor(rule, 'lib_trainer/config_file.py::add_dataset_details', len(sites), 1, "config.set(<section>, 'uuid', ...) sites in the trainer"):
+        return
+    for qual, fn, c in sites:
+        ctx.stats['functions'].add(qual)
+        v = expand(fn, c.args[2], stores_in(fn))
+        srcs = [call_name(x) for x in ast.walk(v) if isinstance(x, ast.Call) and (call_name(x) or '').rpartition('.')[2].startswith('uuid')]
+        fresh = [s_ for s_ in srcs if s_ in FRESH_UUID]
+        stale = [s_ for s_ in srcs if s_ not in FRESH_UUID]
+        wrappers_ok = all(call_name(x) in FRESH_UUID | {'str'} or (isinstance(x.func, ast.Attribute) and x.func.attr in ('hex', '__str__'))
+                          for x in ast.walk(v) if isinstance(x, ast.Call))
+        if fresh and not stale and wrappers_ok:
+            ctx.ok(rule, qual, "the ruleset uuid is %s: a new identity for every training run" % U(v), {'value': U(v)})
+        else:
+            ctx.bad(rule, qual, "ruleset uuid = " + U(v)[:80],
+                    'the uuid written by the trainer must be new for every training run (uuid4/uuid1); a value computed from '
+                    'the training options is shared by different grammars, so the guesser no longer refuses a session saved '
+                    'against the previous grammar', {'value': U(v)}, c)
+
+
+def r13_grammar_order(ctx, rule):
+    """The restore walks the grammar by index (left-to-right canonical descent over group indexes): the resumed process
+    must load the same group order as the one that saved, so no list of the loaded grammar may take its order from a set."""
+    from .common import no_set_order
+    no_set_order(ctx, rule, 'lib_guesser/grammar_io.py', 5, 'the loaded grammar',
+                 'a parse tree is a list of indexes into the grammar lists; the resumed process re-creates the frontier by '
+                 'index, which denotes the same pre-terminals only if the loader orders every list identically in every '
+                 'process (set iteration order of strings changes with the hash seed)')
+
+
 def rules(tier):
     return [('C08.R1', r1_uuid_gate), ('C08.R2', r2_region_agreement), ('C08.R3', r3_canonical_descent),
             ('C08.R4', r4_saved_position), ('C08.R5', r5_sav_keys), ('C08.R6', c01.r5_successor),
             ('C08.R7', c01.r4_prob_pt_coupling), ('C08.R8', c01.r1_heap_order), ('C08.R9', r9_restore_depth), ('C08.R11', r11_restore_is_verbatim),
-            ('C08.R10', _exact_float)]
+            ('C08.R10', _exact_float), ('C08.R12', r12_uuid_is_fresh), ('C08.R13', r13_grammar_order)]
 
 
 META = {
